@@ -73,16 +73,21 @@ theorem live_page_good {W : World Node VH V} (hOK : W.OK) (ps : PageSet Node) (k
 
 /-- one iteration of the query loop -/
 theorem step_ok (W : World Node VH V) (hOK : W.OK) (s : Sys Node VH V) (hs : SysInv W s) (i : Nat) :
-    (∃ s' out, step W.env s i = .ok (s', out) ∧ SysInv W s') ∨ step W.env s i = .err () := by
+    (∃ s' out, step W.env s i = .ok (s', out) ∧ SysInv W s' ∧
+        (∀ r, s.reqs[i]? = some (r, none) → r.isCompleted = false → out ≠ .noQuery ∧ out ≠ .busy)) ∨
+      (step W.env s i = .err () ∧ s.reqs[i]? = none) := by
   unfold step
   cases hi : s.reqs[i]? with
-  | none => exact .inr rfl
+  | none => exact .inr ⟨rfl, rfl⟩
   | some x =>
     obtain ⟨r, aw⟩ := x
     cases aw with
-    | some q => exact .inl ⟨s, .busy, rfl, hs⟩
+    | some q => exact .inl ⟨s, .busy, rfl, hs, fun r' h => by cases h⟩
     | none =>
       left
+      have hprog : ∀ (out : StepOut), out ≠ .noQuery ∧ out ≠ .busy →
+          ∀ r', some (r, (none : Option Query)) = some (r', none) → r'.isCompleted = false → out ≠ .noQuery ∧ out ≠ .busy :=
+        fun _ h _ _ _ => h
       have hr : ReqOK W s.ps r none := hs.reqs _ (List.mem_of_getElem? hi)
       obtain ⟨ht, hpid, hst⟩ := hr
       unfold StOK at hst
@@ -91,7 +96,12 @@ theorem step_ok (W : World Node VH V) (hOK : W.OK) (s : Sys Node VH V) (hs : Sys
       | completed t =>
         have : nextQuery r = .ok (r, none) := by unfold nextQuery; rw [hrs]
         rw [this]
-        exact ⟨s, .noQuery, rfl, hs⟩
+        refine ⟨s, .noQuery, rfl, hs, ?_⟩
+        intro r' h hc
+        cases h
+        unfold Req.isCompleted at hc
+        rw [hrs] at hc
+        cases hc
       | seeking =>
         rw [hrs] at hst
         obtain ⟨h6, h2, hav, _⟩ := hst
@@ -105,7 +115,7 @@ theorem step_ok (W : World Node VH V) (hOK : W.OK) (s : Sys Node VH V) (hs : Sys
           obtain ⟨ps', r', e1, e2, e3, e4, e5, e6⟩ :=
             continueSeek_ok W hOK s.ps hs.ps r ht hrs h6 h2 pg (hs.ps _ pg o hget)
           rw [e1]
-          exact ⟨_, _, rfl, sysinv_set hs e4 e5 hs.mem i e6⟩
+          exact ⟨_, _, rfl, sysinv_set hs e4 e5 hs.mem i e6, hprog _ (by simp)⟩
         | none =>
           simp only
           have hg : W.G (sextetsOf (r.key.take r.pos.depth)) := by
@@ -124,7 +134,7 @@ theorem step_ok (W : World Node VH V) (hOK : W.OK) (s : Sys Node VH V) (hs : Sys
             obtain ⟨ps', r', e1, e2, e3, e4, e5, e6⟩ :=
               continueSeek_ok W hOK _ hps1 r ht hrs h6 h2 pg (pgood_mono he1 hgoodU)
             rw [e1]
-            exact ⟨_, _, rfl, sysinv_set hs e4 (ext_trans he1 e5) hs.mem i e6⟩
+            exact ⟨_, _, rfl, sysinv_set hs e4 (ext_trans he1 e5) hs.mem i e6, hprog _ (by simp)⟩
           | none =>
             simp only
             cases hca : s.cache.lookup (sextetsOf (r.key.take r.pos.depth)) with
@@ -137,10 +147,10 @@ theorem step_ok (W : World Node VH V) (hOK : W.OK) (s : Sys Node VH V) (hs : Sys
               obtain ⟨ps', r', e1, e2, e3, e4, e5, e6⟩ :=
                 continueSeek_ok W hOK _ hps1 r ht hrs h6 h2 pg (pgood_mono he1 hgoodU)
               rw [e1]
-              exact ⟨_, _, rfl, sysinv_set hs e4 (ext_trans he1 e5) hs.mem i e6⟩
+              exact ⟨_, _, rfl, sysinv_set hs e4 (ext_trans he1 e5) hs.mem i e6, hprog _ (by simp)⟩
             | none =>
               simp only
-              refine ⟨_, _, rfl, ?_⟩
+              refine ⟨_, _, rfl, ?_, hprog _ (by simp)⟩
               unfold setReq
               refine sysinv_set hs hs.ps (ext_refl _) hs.mem i ⟨trail_congr ht rfl rfl rfl, hpid, ?_⟩
               unfold StOK
@@ -161,7 +171,7 @@ theorem step_ok (W : World Node VH V) (hOK : W.OK) (s : Sys Node VH V) (hs : Sys
           unfold nextQuery; rw [hrs]
         rw [this]
         simp only
-        refine ⟨_, _, rfl, ?_⟩
+        refine ⟨_, _, rfl, ?_, hprog _ (by simp)⟩
         unfold setReq
         refine sysinv_set hs hs.ps (ext_refl _) hs.mem i ⟨trail_congr ht rfl rfl rfl, hpid, ?_⟩
         unfold StOK
@@ -186,7 +196,7 @@ theorem step_ok (W : World Node VH V) (hOK : W.OK) (s : Sys Node VH V) (hs : Sys
           unfold nextQuery; rw [hrs]
         rw [this]
         simp only
-        refine ⟨_, _, rfl, ?_⟩
+        refine ⟨_, _, rfl, ?_, hprog _ (by simp)⟩
         unfold setReq
         refine sysinv_set hs hs.ps (ext_refl _) hs.mem i ⟨trail_congr ht rfl rfl rfl, hpid, ?_⟩
         unfold StOK
@@ -206,17 +216,18 @@ theorem getElem?_set_self {α : Type} {l : List α} {i : Nat} {a b : α} (h : l[
 
 /-- the page a request waits for arrives -/
 theorem supplyPage_ok (W : World Node VH V) (hOK : W.OK) (s : Sys Node VH V) (hs : SysInv W s) (i : Nat) :
-    (∃ s', supplyPage W.env s i = .ok s' ∧ SysInv W s') ∨ supplyPage W.env s i = .err () := by
+    (∃ s', supplyPage W.env s i = .ok s' ∧ SysInv W s') ∨
+      (supplyPage W.env s i = .err () ∧ ∀ r p, s.reqs[i]? ≠ some (r, some (.page p))) := by
   unfold supplyPage
   cases hi : s.reqs[i]? with
-  | none => exact .inr rfl
+  | none => exact .inr ⟨rfl, fun _ _ h => by cases h⟩
   | some x =>
     obtain ⟨r, aw⟩ := x
     cases aw with
-    | none => exact .inr rfl
+    | none => exact .inr ⟨rfl, fun _ _ h => by cases h⟩
     | some q =>
       cases q with
-      | leaf l => exact .inr rfl
+      | leaf l => exact .inr ⟨rfl, fun _ _ h => by cases h⟩
       | page pid =>
         left
         simp only
@@ -283,17 +294,18 @@ theorem awaiting_leaf {W : World Node VH V} {ps : PageSet Node} {r : Req Node VH
 
 /-- the leaf a request waits for arrives -/
 theorem supplyLeaf_ok (W : World Node VH V) (hOK : W.OK) (s : Sys Node VH V) (hs : SysInv W s) (i : Nat) :
-    (∃ s', supplyLeaf W.env s i = .ok s' ∧ SysInv W s') ∨ supplyLeaf W.env s i = .err () := by
+    (∃ s', supplyLeaf W.env s i = .ok s' ∧ SysInv W s') ∨
+      (supplyLeaf W.env s i = .err () ∧ ∀ r l, s.reqs[i]? ≠ some (r, some (.leaf l))) := by
   unfold supplyLeaf
   cases hi : s.reqs[i]? with
-  | none => exact .inr rfl
+  | none => exact .inr ⟨rfl, fun _ _ h => by cases h⟩
   | some x =>
     obtain ⟨r, aw⟩ := x
     cases aw with
-    | none => exact .inr rfl
+    | none => exact .inr ⟨rfl, fun _ _ h => by cases h⟩
     | some q =>
       cases q with
-      | page pid => exact .inr rfl
+      | page pid => exact .inr ⟨rfl, fun _ _ h => by cases h⟩
       | leaf l =>
         left
         simp only
@@ -380,15 +392,15 @@ theorem exec_ok (W : World Node VH V) (hOK : W.OK) (s : Sys Node VH V) (hs : Sys
     obtain ⟨s', e1, e2, _⟩ := push_ok W hOK s hs key (ha key rfl)
     exact ⟨s', e1, e2⟩
   | step i =>
-    rcases step_ok W hOK s hs i with ⟨s', out, e1, e2⟩ | e1
+    rcases step_ok W hOK s hs i with ⟨s', out, e1, e2, _⟩ | ⟨e1, _⟩
     · exact ⟨s', by simp only [exec, e1], e2⟩
     · exact ⟨s, by simp only [exec, e1], hs⟩
   | supplyPage i =>
-    rcases supplyPage_ok W hOK s hs i with ⟨s', e1, e2⟩ | e1
+    rcases supplyPage_ok W hOK s hs i with ⟨s', e1, e2⟩ | ⟨e1, _⟩
     · exact ⟨s', by simp only [exec, e1], e2⟩
     · exact ⟨s, by simp only [exec, e1], hs⟩
   | supplyLeaf i =>
-    rcases supplyLeaf_ok W hOK s hs i with ⟨s', e1, e2⟩ | e1
+    rcases supplyLeaf_ok W hOK s hs i with ⟨s', e1, e2⟩ | ⟨e1, _⟩
     · exact ⟨s', by simp only [exec, e1], e2⟩
     · exact ⟨s, by simp only [exec, e1], hs⟩
 
